@@ -11,6 +11,9 @@ pub fn gen_case(fam: &str, r: &mut Rng, i: u64, p: &HashMap<String, String>) -> 
         "c03" => c03(r, i, p),
         "c04" => c04(r, i, p),
         "c12" => c12(r, i, p),
+        "c11" => c11(r, i, p),
+        "c13" => c13(r, i, p),
+        "c15" => c15(r, i, p),
         _ => vec![],
     }
 }
@@ -154,4 +157,155 @@ fn c12(r: &mut Rng, i: u64, _p: &HashMap<String, String>) -> Vec<Value> {
     // the trivial decorator has no block prefixes
     let pw = if deco == "trivial" { 0 } else { pw };
     vec![json!({"id": id("c12", i), "meta": {"pw": pw}, "runs": [run(&html, w, cfg(deco, vec![]), route)]})]
+}
+
+fn tagged(mut run: Value, tag: &str) -> Value { run["tag"] = json!(tag); run }
+fn run_hx(bytes: &[u8], w: u64, cfg: Value, route: &str) -> Value { json!({"hx": hex(bytes), "w": w, "cfg": cfg, "route": route}) }
+fn any_opts(r: &mut Rng) -> Vec<Value> {
+    let mut ops = opts_c02(r);
+    if r.chance(1, 8) { ops.push(json!(["nolinkwrap"])); }
+    ops
+}
+
+/// C11: (d, 0, o), (d, w, o), (d, w, o + overflow); documents from the grammar and their byte mutations.
+fn c11(r: &mut Rng, i: u64, p: &HashMap<String, String>) -> Vec<Value> {
+    let mut f = if r.chance(1, 2) { Feat::all() } else { Feat::notables() };
+    f.ids = r.chance(1, 5);
+    let mut g = G::new(r, f);
+    let body = g.flow(0);
+    let html = doc_html(&body);
+    let bytes = if r.chance(1, 3) { mutate(r, html.as_bytes()) } else { html.into_bytes() };
+    let deco = deco_std(r);
+    let ops = any_opts(r);
+    let mut ops_o = ops.clone();
+    ops_o.push(json!(["overflow"]));
+    let route = if deco == "rich" { "lines" } else { "string" };
+    let w = r.range(1, wmax(p, 60));
+    vec![json!({"id": id("c11", i), "runs": [
+        tagged(run_hx(&bytes, 0, cfg(deco, ops.clone()), route), "zero"),
+        tagged(run_hx(&bytes, w, cfg(deco, ops), route), "base"),
+        tagged(run_hx(&bytes, w, cfg(deco, ops_o), route), "ovf")]})]
+}
+
+// ---- C13 rewrites on the generator tree -------------------------------------------------------
+fn ws_run(r: &mut Rng) -> String { (*r.pick(&[" ", "  ", "\n", "\t", " \n ", "\n\n", "\t \t", "   "])).to_string() }
+fn is_ws_char(c: char) -> bool { c == ' ' || c == '\n' || c == '\t' }
+const INLINE_PARENTS: &[&str] = &["p", "div", "li", "blockquote", "em", "strong", "code", "s", "del", "i", "span", "a", "h1", "h2", "h3", "h4", "h5", "h6", "dd", "dt", "section", "article", "center", "u", "body"];
+const BLOCK_PARENTS: &[&str] = &["div", "blockquote", "li", "ul", "dd", "body"];
+fn is_inline(n: &N) -> bool { match n { N::T(_) => true, N::Raw(_) => true, N::E(nm, _, _) => ["em", "strong", "code", "s", "del", "i", "span", "a", "img", "br", "u"].contains(&nm.as_str()) } }
+// elements the library itself lays out as blocks (sectioning elements are plain containers to it)
+fn is_block_el(n: &N) -> bool { match n { N::E(nm, _, _) => ["p", "div", "blockquote", "ul", "ol", "dl", "h1", "h2", "h3", "h4", "h5", "h6"].contains(&nm.as_str()), _ => false } }
+fn has_word(n: &N) -> bool { match n { N::T(s) => s.chars().any(|c| !is_ws_char(c)), N::Raw(_) => false, N::E(nm, _, k) => nm != "img" && k.iter().any(has_word) } }
+/// Rewrite the children list of element `pname`.
+fn rewrite_kids(r: &mut Rng, pname: &str, kids: &[N], rate: u64) -> Vec<N> {
+    let mut out: Vec<N> = Vec::new();
+    for k in kids {
+        match k {
+            N::T(s) => {
+                // (a) substitute whitespace runs, (b) insert comments next to whitespace
+                let chars: Vec<char> = s.chars().collect();
+                let mut cur = String::new();
+                let mut idx = 0;
+                while idx < chars.len() {
+                    if is_ws_char(chars[idx]) {
+                        let mut j = idx; while j < chars.len() && is_ws_char(chars[j]) { j += 1; }
+                        let run: String = if r.chance(1, rate) { ws_run(r) } else { chars[idx..j].iter().collect() };
+                        if r.chance(1, rate * 2) {
+                            // comment before, after or inside the run
+                            match r.below(3) {
+                                0 => { if !cur.is_empty() { out.push(N::T(std::mem::take(&mut cur))); } out.push(N::Raw("<!--c-->".into())); cur.push_str(&run); }
+                                1 => { cur.push_str(&run); out.push(N::T(std::mem::take(&mut cur))); out.push(N::Raw("<!--c-->".into())); }
+                                _ => { cur.push(' '); out.push(N::T(std::mem::take(&mut cur))); out.push(N::Raw("<!--c-->".into())); cur.push_str(&run); }
+                            }
+                        } else { cur.push_str(&run); }
+                        idx = j;
+                    } else { cur.push(chars[idx]); idx += 1; }
+                }
+                if !cur.is_empty() { out.push(N::T(cur)); }
+            }
+            N::Raw(x) => out.push(N::Raw(x.clone())),
+            N::E(nm, at, ks) => {
+                let nk = if nm == "pre" { ks.clone() } else { rewrite_kids(r, nm, ks, rate) };
+                out.push(N::E(nm.clone(), at.clone(), nk));
+            }
+        }
+    }
+    // (c) wrap a run of inline children that contains a word in a neutral span
+    if INLINE_PARENTS.contains(&pname) && r.chance(1, rate) && !out.is_empty() {
+        let i = r.below(out.len() as u64) as usize;
+        let mut j = i;
+        while j < out.len() && is_inline(&out[j]) && j - i < 3 { j += 1; }
+        if j > i && out[i..j].iter().any(has_word) {
+            let chunk: Vec<N> = out.drain(i..j).collect();
+            out.insert(i, N::el("span", chunk));
+        }
+    }
+    // (d) indentation / newlines between block-level siblings
+    // (only inside elements that have visible content of their own: an element holding nothing but
+    //  white space is a different document to the library than an empty one, see known finding ws-only-block)
+    if BLOCK_PARENTS.contains(&pname) && out.iter().any(has_word) {
+        let mut o2 = Vec::new();
+        for (k, n) in out.iter().enumerate() {
+            let prev_block = k > 0 && is_block_el(&out[k - 1]);
+            if is_block_el(n) && (k == 0 || prev_block) && r.chance(1, rate) { o2.push(N::T(format!("\n{}", " ".repeat(r.below(5) as usize)))); }
+            o2.push(n.clone());
+        }
+        if out.last().map(is_block_el).unwrap_or(false) && r.chance(1, rate) { o2.push(N::T("\n".into())); }
+        out = o2;
+    }
+    out
+}
+
+/// C13: table-free, pre-free documents; the document and a source-level rewrite of it.
+fn c13(r: &mut Rng, i: u64, p: &HashMap<String, String>) -> Vec<Value> {
+    let mut f = Feat::notables();
+    f.pre = false;
+    f.ids = r.chance(1, 5);
+    let mut g = G::new(r, f);
+    let body = g.flow(0);
+    let rate = r.range(1, 4);
+    let body2 = rewrite_kids(r, "body", &body, rate);
+    let (h1, h2) = (doc_html(&body), doc_html(&body2));
+    if h1 == h2 { return vec![]; }
+    let deco = *r.pick(&["plain", "rich", "plain", "plain_nd"]);
+    let ops = if r.chance(1, 3) { opts_c02(r).into_iter().filter(|o| o[0] != "raw").collect() } else { vec![] };
+    let route = if deco == "rich" { "lines" } else { "string" };
+    let w = if r.chance(2, 3) { r.range(1, 30) } else { r.range(1, wmax(p, 100)) };
+    vec![json!({"id": id("c13", i), "runs": [run(&h1, w, cfg(deco, ops.clone()), route), run(&h2, w, cfg(deco, ops), route)]})]
+}
+
+/// C15: base configuration vs base + one option.
+fn c15(r: &mut Rng, i: u64, p: &HashMap<String, String>) -> Vec<Value> {
+    let opt = *r.pick(&["max_wrap", "pad", "strike", "noborders", "raw", "footnotes", "nolinkwrap", "min_wrap"]);
+    let mut f = if r.chance(1, 2) { Feat::all() } else { Feat::notables() };
+    // half of the documents have nothing the option applies to
+    if r.chance(1, 2) {
+        match opt { "strike" => f.strike = false, "footnotes" | "nolinkwrap" => f.links = false,
+                    "noborders" | "raw" => { f.tables = false; }
+                    "min_wrap" => { f.tables = false; f.lists = false; f.quotes = false; f.heads = false; f.dl = false; }
+                    _ => {} }
+    }
+    let mut g = G::new(r, f);
+    let body = g.flow(0);
+    let html = doc_html(&body);
+    let deco = *r.pick(&["plain", "rich", "trivial", "plain_nd"]);
+    let mut base: Vec<Value> = opts_c02(r).into_iter().filter(|o| {
+        let n = o[0].as_str().unwrap_or("");
+        !(n == opt || (opt == "noborders" && n == "raw") || (opt == "raw" && n == "noborders"))
+    }).collect();
+    let w = if r.chance(2, 3) { r.range(1, 30) } else { r.range(1, wmax(p, 100)) };
+    let mut arg = json!(0);
+    let mut with = base.clone();
+    match opt {
+        "max_wrap" => { let m = if r.chance(1, 3) { w + r.below(20) } else { r.range(1, 40) }; arg = json!(m); with.push(json!(["max_wrap", m])); }
+        "pad" => with.push(json!(["pad"])),
+        "strike" => { base.push(json!(["strike", true])); with.push(json!(["strike", false])); }
+        "noborders" => with.push(json!(["noborders"])),
+        "raw" => with.push(json!(["raw", true])),
+        "footnotes" => { base.push(json!(["footnotes", true])); with.push(json!(["footnotes", false])); }
+        "nolinkwrap" => with.push(json!(["nolinkwrap"])),
+        _ => { let k = r.range(0, 10); arg = json!(k); with.push(json!(["min_wrap", k])); }
+    }
+    vec![json!({"id": id("c15", i), "meta": {"opt": opt, "arg": arg},
+                "runs": [run(&html, w, cfg(deco, base), "string"), run(&html, w, cfg(deco, with), "string")]})]
 }
